@@ -329,6 +329,24 @@ def f_deferplan(slow_len=6, selfprod=0):
     return files
 
 
+def f_deferwin(lead=1):
+    """p2.py defines the producer Q and is then deferred once (it amends g.txt, which a step of
+    p1.py builds); when it runs again, Q and q.txt are detached until p2.py re-defines Q. w.py, a
+    step of the root plan, amends q.txt after `lead` idle actions: the amendment may fall into
+    that window. Every schedule must end with the same successful result."""
+    return {
+        "src.txt": "src\n",
+        "p1.py": script([tr("G", ["src.txt"], ["g.txt"])]),
+        "p2.py": script([tr("Q", [], ["q.txt"]), ["amend", {"inp": ["g.txt"]}], ["read", "g.txt"],
+                         ["write", "p2.out", ["g.txt"]]]),
+        "w.py": script([*([["nop"]] * lead), ["amend", {"inp": ["q.txt"]}], ["read", "q.txt"],
+                        ["write", "w.out", ["q.txt"]]]),
+        "plan.py": script([["static", "src.txt", "p1.py", "p2.py", "w.py"],
+                           ["plan", "./p2.py", {"out": ["p2.out"]}], ["plan", "./p1.py"],
+                           ["run", "./w.py", {"out": ["w.out"]}]]),
+    }
+
+
 def f_treeamend():
     """C amends a file under a static tree (UNCONFIRMED path, promoted hash jobs)."""
     return {
